@@ -1252,8 +1252,12 @@ def cross_language_check(res: dict, obs: dict, parser_types: Dict[str, Tuple[int
                 d = {k: (exp.get(k), got.get(k)) for k in set(exp) | set(got) if exp.get(k) != got.get(k)}
                 pfx = {"constants": "defines_", "hids": "HID_", "mids": "MID_", "mts": "MT_"}[sec]
                 key = f"scalars:{lang}:{sec}"
-                if lang == "m" and any(pfx in k for k in want[sec]) and all((pfx in k) for k in d if k in exp):
-                    key = "matlab:prefix-stripped-inside-name"
+                miss = [k for k in d if k in exp]     # names of the parsed model the matlab output does not have (with that value)
+                if lang == "m" and miss and all((pfx in k) for k in miss):
+                    # generate_field strips the section prefix: from the front of the name only (since 689365a; that
+                    # leading case is the open finding), before that from anywhere in the name
+                    key = "matlab:leading-prefix-stripped" if all(k.startswith(pfx) for k in miss) \
+                        else "matlab:prefix-stripped-inside-name"
                 bad.append((key, f"{lang} {sec} differ from the parsed model: {str(d)[:200]}"))
     hashes = {m["name"]: int(m["hash"][:8], 16) for m in model["messages"]}
     hashes_c = {m["name"]: int(m["hash"][:8], 16) for m in model["messages"] if not core(m["src"])}
